@@ -3,6 +3,7 @@
 EXTENDS Naturals, Sequences, FiniteSets, TLC, Json
 CONSTANTS LookupOrders, SortFlags, Reqs, Shapes, MaxRep,
           QCacheSet,   \* query cache lifetimes (0 = off)
+          V6Src,       \* 1: IPv6 source addresses are global (so that RFC 6724 sorting interleaves the families)
           SortLists,   \* sortlist strings ("" = none): some of the answer addresses match entries, others none
           Repeat       \* 1: the same lookup may be issued a second time at any point (answered from the cache where possible)
 VARIABLES cfg, h, nrep, again
@@ -22,6 +23,7 @@ ReqStep(r) ==
     [] r = "gailother0" -> [op |-> "gai", t |-> 1, name |-> "other.localhost", family |-> 0]     \* not listed
     [] r = "gailit" -> [op |-> "gai", t |-> 1, name |-> "10.1.2.9", family |-> 0, service |-> "25"]
     [] r = "ghbn4" -> [op |-> "ghbn", t |-> 1, name |-> "n1.test", family |-> 4]
+    [] r = "ghbn0" -> [op |-> "ghbn", t |-> 1, name |-> "n1.test", family |-> 0]      \* both families asked, one returned
     [] r = "ghbn6" -> [op |-> "ghbn", t |-> 1, name |-> "n1.test", family |-> 6]
     [] r = "ghbnh4" -> [op |-> "ghbn", t |-> 1, name |-> "h2.test", family |-> 4]
     [] r = "ghba4" -> [op |-> "ghba", t |-> 1, addr |-> 5, family |-> 4]
@@ -44,10 +46,11 @@ Rep(s, rq) ==
     [] s = "chaos" -> b @@ [kind |-> "ok", n |-> 2, chaos |-> 1, ttl |-> 50]
     [] s = "nodata" -> b @@ [kind |-> "nodata"]
     [] s = "nx" -> b @@ [kind |-> "nx"]
+    [] s = "mix6" -> b @@ [kind |-> "ok", n |-> 3, ttl |-> 40, alt6 |-> 1]    \* AAAA answers under two prefixes with different policy labels
     [] s = "five" -> b @@ [kind |-> "ok", n |-> 5, ttl |-> 10]
 GInit == /\ \E lo \in LookupOrders, sf \in SortFlags, qc \in QCacheSet, sl \in SortLists :
               cfg = [nsrv |-> 1, tries |-> 1, timeout |-> 1000, seed |-> 1, lookups |-> lo, hostsfile |-> 1, gaiflags |-> sf, qcache |-> qc]
-                    @@ (IF sl = "" THEN <<>> ELSE [sortlist |-> sl])
+                    @@ (IF sl = "" THEN <<>> ELSE [sortlist |-> sl]) @@ (IF V6Src = 1 THEN [v6srcglobal |-> 1] ELSE <<>>)
          /\ \E r \in Reqs : h = <<ReqStep(r)>>
          /\ nrep = 0 /\ again = FALSE
 GNext == \/ /\ nrep < MaxRep /\ \E s \in Shapes : h' = Append(h, Rep(s, h[1])) /\ nrep' = nrep + 1 /\ UNCHANGED <<cfg, again>>
